@@ -89,7 +89,7 @@ class External:
 
     __slots__ = (
         "label", "kind", "seq", "fut", "outcome", "hanging", "created_poll",
-        "fired_poll", "state", "due", "on_fire", "owner", "lazy", "pos", "fired_event",
+        "fired_poll", "state", "due", "on_fire", "owner", "lazy", "pos", "fired_event", "awaited",
     )
 
     def __init__(self, label, kind, seq, fut, outcome, hanging, created_poll, owner):
@@ -108,6 +108,7 @@ class External:
         self.lazy = False  # completes only when nothing non-lazy is pending
         self.pos = None
         self.fired_event = None
+        self.awaited = None  # was anybody waiting on the future when it completed?
 
     def is_pending(self):
         if self.state != "pending":
@@ -264,6 +265,7 @@ class Sim:
             payload()
             return
         fut = ext.fut
+        ext.awaited = bool(getattr(fut, "_callbacks", None))
 
         def deliver():
             if fut.done():
